@@ -253,5 +253,10 @@ def replay(path):
     for x in results:
         if "panic" in x:
             rep.violation("load:panic", x["panic"], case)
+    if PID == "C06":
+        for (t, sflag), x in zip(docs, results):
+            why = pc.token_lines_agree(t, x)
+            if why and why != "skip":
+                rep.violation("strictness:TokenLine", why, case)
     print("replay:", "violation reproduced" if rep.new else "no violation")
     return rep.exit_code()
